@@ -16,7 +16,15 @@ git apply $out/patch.diff || { echo "NOT-CONFIRMED patch does not apply to HEAD"
 go build ./... || { echo "NOT-CONFIRMED does not build"; exit 1; }
 go test -vet=off -count=1 ./... > $wt.testlog 2>&1
 fails=$(grep -E '^\s*--- FAIL' $wt.testlog | sed 's/ (.*//' | sort -u | grep -v -E 'TestScripts$|TestScripts/env_var_with_go|TestSimple$|TestSimple/cover')
-if [ -n "$fails" ]; then echo "NOT-CONFIRMED existing tests fail with the change:"; echo "$fails"; rm -f $wt.testlog; exit 1; fi
+if [ -n "$fails" ]; then
+  # timing-sensitive tests (testscript pty) flake now and then: a failure counts only if it repeats
+  go test -vet=off -count=1 ./... > $wt.testlog2 2>&1
+  fails2=$(grep -E '^\s*--- FAIL' $wt.testlog2 | sed 's/ (.*//' | sort -u | grep -v -E 'TestScripts$|TestScripts/env_var_with_go|TestSimple$|TestSimple/cover')
+  both=$(comm -12 <(echo "$fails") <(echo "$fails2"))
+  rm -f $wt.testlog2
+  if [ -n "$both" ]; then echo "NOT-CONFIRMED existing tests fail with the change (twice):"; echo "$both"; rm -f $wt.testlog; exit 1; fi
+  echo "(note: flaky on first run, passed on second: $fails)"
+fi
 if grep -q -E '^(FAIL|panic)' $wt.testlog && grep -E '^FAIL' $wt.testlog | grep -v -E 'gotooltest|cmd/testscript|^FAIL$' | grep -q .; then echo "NOT-CONFIRMED package failure:"; grep -E '^FAIL' $wt.testlog; rm -f $wt.testlog; exit 1; fi
 rm -f $wt.testlog
 mkdir -p $dest
